@@ -6,7 +6,10 @@ HOME = os.path.dirname(os.path.dirname(os.path.abspath(__file__)))
 EXTRA = {  # patches that are (also) expected to be caught by other checks
     "c01_halton_cursor_not_reset_on_reseed": ["C01", "C13"], "c05_batch_index_incremented_after_checkpoint": ["C05", "C04"], "c11_history_extended_before_loss": ["C11", "C02"],
     "C19-b": ["C19", "C10"], "C11-a": ["C11", "C02"], "C09-a": ["C09", "C05"], "C05-a": ["C05", "C09"], "C03-b": ["C03", "C15"], "C08-a": ["C08", "C02"], "C07-b": ["C07", "C08"],
+    "C18-d": ["C11"], "C02-d": ["C02", "C16"], "C09-c": ["C09", "C05", "C04"], "C09-d": ["C09", "C10"], "C10-d": ["C10", "C09"],
 }
+# not a violation under the property as we read it (DESIGN.md 11.8): must stay silent
+EXPECT_SILENT = {("C07-d", "C07")}
 only = sys.argv[sys.argv.index("--only") + 1] if "--only" in sys.argv else ""
 rows = []
 patches = sorted(glob.glob(f"{HOME}/mutations/*.diff")) + sorted(glob.glob(f"{HOME}/seeded/*/patch.diff"))
@@ -26,6 +29,6 @@ with open(f"{HOME}/DETECTION.md", "w") as f:
     f.write("| change | check | exit | first violation keys | s |\n|---|---|---|---|---|\n")
     for r in rows:
         f.write("| %s | %s | %s | %s | %s |\n" % r)
-    missed = [r for r in rows if r[2] != 1]
-    f.write("\n%d of %d (change, check) pairs detected; not detected: %s\n" % (len(rows) - len(missed), len(rows), [(r[0], r[1], r[2]) for r in missed]))
-print("missed:", [(r[0], r[1], r[2]) for r in rows if r[2] != 1])
+    missed = [r for r in rows if (r[2] != 1) != ((r[0], r[1]) in EXPECT_SILENT)]
+    f.write("\n%d of %d (change, check) pairs as expected (C07-d is expected to stay silent, see DESIGN.md 11.8); unexpected: %s\n" % (len(rows) - len(missed), len(rows), [(r[0], r[1], r[2]) for r in missed]))
+print("unexpected:", [(r[0], r[1], r[2]) for r in rows if (r[2] != 1) != ((r[0], r[1]) in EXPECT_SILENT)])
